@@ -121,7 +121,7 @@ Definition targets (l lbl : option label) : bool :=
   match l with None => true | Some _ => opt_label_eqb l lbl end.
 
 (* ------------------------------------------------------------------ structured execution *)
-(* Used (a) as the DIRECT semantics (strict = false: yield is a no-op), and (b) inside the
+(* Used (a) as the DIRECT semantics (strict = false: yield only counts the receive), and (b) inside the
    flat machine for functions and statements that the translator emits in direct form
    (strict = true: reaching the blocking primitive from non-resumable code is an error;
    [callf] then only succeeds for calls that complete without suspending). *)
@@ -138,7 +138,7 @@ Section Exec.
       | SAssign x e => Some (ONormal, upd x (eval e loc w) loc, w)
       | SGAssign g e => Some (ONormal, loc, w_setg g (eval e loc w) w)
       | SPrint e => Some (ONormal, loc, w_print (eval e loc w) w)
-      | SYield => if strict then None else Some (ONormal, loc, w)
+      | SYield => if strict then None else Some (ONormal, loc, w_ticked w)
       | SCall _ dst f args =>
           match callf f (map (fun a => eval a loc w) args) w with
           | Some (v, w') => Some (ONormal, set_dst dst v loc, w')
